@@ -205,6 +205,20 @@ def polyroots(ctx, coeffs, maxsteps=50, cleanup=True, extraprec=10,
                 elif abs(ctx._re(roots[i])) < tol:
                     roots[i] = roots[i].imag * 1j
         roots.sort(key=lambda x: (abs(ctx._im(x)), ctx._re(x)))
+        # Real roots come first. Move every remaining root next to its
+        # conjugate: sorting alone separates the conjugates when several
+        # pairs have imaginary parts of (nearly) equal magnitude
+        nreal = len([r for r in roots if not ctx._im(r)])
+        rest = roots[nreal:]
+        if 2*len([r for r in rest if ctx._im(r) > 0]) == len(rest):
+            pairs = []
+            while rest:
+                r = rest.pop(0)
+                c = min([x for x in rest if ctx._im(x)*ctx._im(r) < 0],
+                        key=lambda x: abs(x - ctx.conj(r)))
+                rest.remove(c)
+                pairs += [r, c]
+            roots[nreal:] = pairs
     if error:
         err = max(err)
         err = max(err, ctx.ldexp(1, -orig+1))
